@@ -287,6 +287,31 @@ func runC18(c *Collector, r *Rng, thorough bool) {
 				c.Fail("C18/modified-by-read", sv.name+": concurrent Verify/MarshalCBOR modified the value", map[string]any{"value": sv.name, "before": trunc(before, 600), "after": trunc(after, 600)})
 			}
 		}
+		// --- unrelated COSE_Keys used by different goroutines at the same time (each goroutine its own keys, with
+		// curve identifiers nobody has used before among them): nothing is shared, so nothing races ---
+		{
+			var wgk sync.WaitGroup
+			for g := 0; g < G; g++ {
+				wgk.Add(1)
+				go func(g int) {
+					defer wgk.Done()
+					for q := 0; q < 6; q++ {
+						crv := int64(1 + (q % 3))
+						if q >= 3 {
+							crv = int64(1000 + i*1000 + g*10 + q) // not in the registry
+						}
+						kk := &cose.Key{Type: cose.KeyTypeEC2, Params: map[any]any{cose.KeyLabelEC2Curve: cose.Curve(crv), cose.KeyLabelEC2X: make([]byte, 32), cose.KeyLabelEC2Y: make([]byte, 32)}}
+						kk.MarshalCBOR()
+						kk.Verifier()
+						kk.PublicKey()
+						var dk cose.Key
+						dk.UnmarshalCBOR([]byte{0xa4, 0x01, 0x02, 0x20, 0x19, byte(crv >> 8), byte(crv), 0x21, 0x41, 0x01, 0x22, 0x41, 0x02})
+					}
+				}(g)
+			}
+			wgk.Wait()
+			c.Eval("concurrent-unrelated-keys", fmt.Sprint(i), true)
+		}
 		// --- one signer, distinct messages, concurrently ---
 		signer := k.signer()
 		var rawRSA *rsa.PrivateKey
@@ -380,6 +405,41 @@ func runC19(c *Collector, r *Rng, thorough bool) {
 		n = 3000
 	}
 	kinds := []string{"DSign1", "DSign1U", "DSignMsg", "DSignature", "DProt", "DUnprot"}
+	// decoding depends on the input only, not on what the process decoded before, into whatever variable: reference
+	// inputs (with nested countersignatures) are decoded into fresh variables before, during and after the run, with
+	// batches of unusual inputs in between (countersignature chains of growing depth, accepted or refused, many times)
+	chain := func(depth int) []byte {
+		inner := wArr(-1, wBstr(wMap(-1, wInt(1, -1), wInt(-7, -1)).Ser(), -1), wMap(-1), wBstr([]byte{1, 2, 3}, -1))
+		for dd := depth; dd > 1; dd-- {
+			inner = wArr(-1, wBstr(wMap(-1, wInt(1, -1), wInt(-7, -1)).Ser(), -1), wMap(-1, wInt(11, -1), inner), wBstr([]byte{4, 5, 6}, -1))
+		}
+		return wTag(18, -1, wArr(-1, wBstr(wMap(-1, wInt(1, -1), wInt(-7, -1)).Ser(), -1), wMap(-1, wInt(11, -1), inner), wBstr([]byte("p"), -1), wBstr([]byte{9}, -1))).Ser()
+	}
+	refIn := [][]byte{chain(1), chain(2), chain(3), unhex("d28443a10126a104426b31f64101"), unhex("d28440a1078343a10126a04101f64101")}
+	var refWant []string
+	for _, in := range refIn {
+		refWant = append(refWant, plainDecode("DSign1", in))
+	}
+	refCheck := func(when string) {
+		for j, in := range refIn {
+			if got := plainDecode("DSign1", in); got != refWant[j] {
+				c.Fail("C19/history-dependent", fmt.Sprintf("%s: an input decoded into a fresh variable gives %s; at the start of the run the same input gave %s", when, trunc(got, 200), trunc(refWant[j], 200)), map[string]any{"kind": "DSign1", "data": hx(in)})
+				return
+			}
+		}
+	}
+	for depth := 4; depth <= 14; depth++ {
+		first := plainDecode("DSign1", chain(depth))
+		for rep := 0; rep < 12; rep++ {
+			if got := plainDecode("DSign1", chain(depth)); got != first {
+				c.Fail("C19/history-dependent", fmt.Sprintf("decoding number %d of the same input (a chain of %d nested countersignatures) differs from the first", rep+2, depth), map[string]any{"kind": "DSign1", "data": hx(chain(depth))})
+				break
+			}
+		}
+		c.Eval("global-history/chain-depth", fmt.Sprint(depth), true)
+		refCheck(fmt.Sprintf("after decoding chains of %d nested countersignatures", depth))
+	}
+	defer refCheck("at the end of the run")
 	for i := 0; i < n; i++ {
 		kind := kinds[i%len(kinds)]
 		steps := 2 + r.Intn(7)
